@@ -46,13 +46,7 @@ Theorem C02_every_node_written_once : forall d b, cdx_ser d = Ok b ->
   b_components b = map clear_auto (cdx_forest nl root) /\
   Permutation (flat_map refs (cdx_forest nl root)) (filter (fun i => negb (String.eqb i root)) (dedup (ids nl))) /\
   option_map c_ref (b_meta_comp b) = Some root.
-Proof.
-  intros d b H nl root Enl Er.
-  destruct (cdx_ser_shape d b H) as [md [nl' [_ [Enl' [[Er' _]|[root' [rn [Er' [_ [_ [Hto [Ec [_ Em]]]]]]]]]]]]];
-    rewrite Enl in Enl'; injection Enl' as <-; rewrite Er in Er'; [discriminate|injection Er' as <-].
-  split; [exact Ec|]. split; [|exact Em].
-  apply forest_exactly_once. intros e He Ht x Hx. exact (Hto e He (or_introl Ht) x Hx).
-Qed.
+Proof. exact cdx_every_node_once. Qed.
 Print Assumptions C02_every_node_written_once.
 
 (* a component is nested only under the node that contains it *)
@@ -72,7 +66,7 @@ Print Assumptions C02_any_depth.
 (* ---- structure: what is read ---- *)
 (* the graph read from any BOM is closed and has unique, non-empty identifiers *)
 Theorem C02_read_graph_well_formed : forall b, wf (cdx_unser_nl b) /\ forall i, In i (ids (cdx_unser_nl b)) -> i <> "".
-Proof. intros b. split; [apply cdx_unser_wf|apply cdx_unser_ids_nonempty]. Qed.
+Proof. exact cdx_read_graph_well_formed. Qed.
 Print Assumptions C02_read_graph_well_formed.
 
 (* ---- per node ---- *)
@@ -120,7 +114,7 @@ Print Assumptions C02_external_reference_types_covered.
 Theorem C02_licence_none_or_one : forall n cc,
   (n_licenses n = [] -> n_licenses (comp_to_node (node_to_comp n) cc) = []) /\
   (forall l, n_licenses n = [l] -> l <> "" -> n_licenses (comp_to_node (node_to_comp n) cc) = [l]).
-Proof. intros n cc. split; [apply cdx_no_licence|apply cdx_single_licence]. Qed.
+Proof. exact cdx_licence_none_or_one. Qed.
 Print Assumptions C02_licence_none_or_one.
 
 Theorem C02_licence_list_refuted : exists n cc,
